@@ -1,6 +1,8 @@
 import Arimaa.Props.C02
 import Arimaa.Lemmas.RsAgreeStep
+import Arimaa.Lemmas.RsAgreeGen
 import Arimaa.Gen.Bridge.GameState_take_action
+import Arimaa.Gen.Bridge.GameState_valid_actions_no_rep
 import Arimaa.Gen.Bridge.PieceBoardState_trapped_piece_bits
 import Arimaa.Gen.Bridge.PieceBoard_remove_trapped_pieces
 import Arimaa.Gen.Bridge.PieceBoard_take_action
@@ -18,7 +20,7 @@ of these functions that alters behaviour breaks an obligation here without any t
 (written by tools/mkrprops.py)
 -/
 namespace Arimaa
-open Gen GameState Arimaa.Gen.Rs Arimaa.Rt Arimaa.Gen.Bridge
+open Gen GameState Arimaa.Gen.Rs Arimaa.Rt Arimaa.Gen.Bridge Spec
 
 theorem C02_value_of_ok {α : Type} {x : Res α} {p : Bool} {v w : α} (h : x = Res.guard p v) (hx : x = .ok w) :
     p = false ∧ w = v := by
@@ -42,5 +44,24 @@ theorem C02_code_successor (s r : GameState) (a : Action)
     (h : GameState_take_action s a = .ok r) : r = s.takeAction a := by
   simp only [bridge_GameState_take_action] at h
   exact (C02_value_of_ok (RsAgree.take_action_eq s a) h).2
+
+theorem C02_code_rule_only (s : GameState) (l : List Action) (hl : GameState_valid_actions_no_rep s = .ok l) :
+    l = s.validActionsNoRep := by
+  simp only [bridge_GameState_valid_actions_no_rep] at hl
+  exact (C02_value_of_ok (RsAgree.valid_actions_no_rep_direct s) hl).2
+
+/-- **C02 for the code as it is now**: a step taken from the list the regenerated `valid_actions_no_rep` returned,
+applied by the regenerated `take_action`, moves exactly that piece onto the empty neighbour and then removes
+exactly the unsupported trap pieces (`Spec.capture (Spec.move ..)`); the new board is well formed -/
+theorem C02_code_step_refines (s s' : GameState) (pp : PlayPhase) (h : PlayInv s pp) (l : List Action)
+    (hl : GameState_valid_actions_no_rep s = .ok l) (i : Nat) (d : Dir) (ha : Action.move i d ∈ l)
+    (ht : GameState_take_action s (.move i d) = .ok s') :
+    ∃ c j, absBoard s.board i = some c ∧ nbr i (dirSpec d) = some j ∧ absBoard s.board j = none ∧
+      absBoard s'.board = capture (move (absBoard s.board) i j) ∧ WF s'.board := by
+  have h1 := C02_code_rule_only s l hl
+  have h2 := C02_code_successor s s' _ ht
+  subst h1 h2
+  obtain ⟨c, j, hc, hn, hj, hb, _, hw⟩ := C02_refines s pp h i d ha
+  exact ⟨c, j, hc, hn, hj, hb, hw⟩
 
 end Arimaa
